@@ -27,7 +27,7 @@ CHECKS = {
    text="after every step of histories with restarts, external damage (quarantines) and injected I/O failures the bytes of all blob files are compared with the previous snapshot (prefix / moved intact), the tap shows no write below the stored end, truncate, remove, re-create, rename over an existing file or blob id reuse, and query passes perform no writes",
    note="snapshots taken at quiescent points (worker barrier); strace view only in thorough tier"),
  "C08": dict(cat="exploration", tech="runtime monitoring: client-boundary history + per-key max-register checker, quiescence model check, independent disk parse, timing-free deadlock monitor (+ TSan/ASan in thorough)",
-   text="8..4000 concurrent client tasks with rotation, maintenance task and injected I/O delays; every read is checked against the recorded history (never stale, never foreign, never backwards), the quiescent state equals the model and every quiescent read is the rank-first record of the independently parsed files (timestamp, blob id, position), every blob parses to exactly the acknowledged records, 'pending operations + no I/O + no progress' is reported as deadlock, and a racing-creators schedule (forced update held inside its blob creation while a client creates the next blob) must give the same answers before and after a restart",
+   text="8..4000 concurrent client tasks with rotation, maintenance task and injected I/O delays; every read is checked against the recorded history (never stale, never foreign, never backwards), a filter probe never denies a key whose put was acknowledged before it, the quiescent state equals the model and every quiescent read is the rank-first record of the independently parsed files (timestamp, blob id, position), every blob parses to exactly the acknowledged records, 'pending operations + no I/O + no progress' is reported as deadlock, and a racing-creators schedule (forced update held inside its blob creation while a client creates the next blob) must give the same answers before and after a restart",
    note="schedules are those produced by the OS/tokio in the run (counted, not enumerated)"),
  "C09": dict(cat="exploration", tech="runtime monitoring: differential oracle in-memory index vs B+tree file through the H3 index probe over systematically enumerated shapes",
    text="for thousands of enumerated header multisets (16 key lengths incl. block-exact ones, key counts through 1..3+ inner levels and every last-leaf remainder, version runs around block multiples, ties, markers) the file index must answer every present/absent key exactly like the in-memory index it was built from, also after reopen and after loading back; files are parsed independently",
